@@ -43,7 +43,10 @@ pub fn run_op2(op: &str, a: &[&str]) -> String {
             }
         }
         "iter" => op_iter(a),
-        _ => format!("bad-op {}", op),
+        _ => match crate::ops3::run_op3(op, a) {
+            Some(s) => s,
+            None => format!("bad-op {}", op),
+        },
     }
 }
 
